@@ -214,6 +214,73 @@ def chk_crop(case, acc, seed):
     acc.case(case, outcome='crop')
 
 
+def chk_blackbody_twin(case, acc, seed):
+    """a Blackbody is a Spectrum: integration, binning and every resizing operation (all but sample / resample, which re-evaluate the
+    Planck law by design) give what they give for a plain Spectrum holding the same wavelengths and values"""
+    import sys
+    rad = sys.modules['lentil.radiometry']
+    wu, vu = case['wu'], case['vu']
+    f = UF[wu]
+    grid = np.array([400., 450., 500., 550., 600., 650., 700.]) * f
+
+    def pair():
+        bb = rad.Blackbody(grid.copy(), 5000., waveunit=wu, valueunit=vu) if case['kind2'] == 'planck' else rad.Blackbody.vegamag(grid.copy(), 5000., 3.0, 'V', waveunit=wu, valueunit='photlam')
+        tw = rad.Spectrum(np.array(bb.wave, copy=True), np.array(bb.value, copy=True), waveunit=bb.waveunit, valueunit=bb.valueunit)
+        return bb, tw
+    other = {'nm': 'um', 'um': 'nm'}[wu]
+    fo = UF[other]
+    ops = {
+        'integrate': lambda s: s.integrate(450. * f, 650. * f, method='trapz'),
+        'integrate-all': lambda s: s.integrate(method='simps'),
+        'crop': lambda s: s.crop(450. * f, 650. * f),
+        'trim': lambda s: s.trim(0.5),
+        'pad': lambda s: s.pad((300. * f, 800. * f)),
+        'copy': lambda s: s.copy(),
+        'append-copy': lambda s: s.append(rad.Spectrum((710. + 10 * np.arange(7)) * f, 1. + np.arange(7), waveunit=wu, valueunit=s.valueunit), copy=True),
+        'append': lambda s: s.append(rad.Spectrum((710. + 10 * np.arange(7)) * f, 1. + np.arange(7), waveunit=wu, valueunit=s.valueunit)),
+        'to-other': lambda s: s.to(other),
+    }
+    def state(s):
+        if s is None or not hasattr(s, 'wave'):
+            return s
+        return (np.array(s.wave, float), np.array(s.value, float), s.waveunit, s.valueunit)
+    def same(a, b):
+        if isinstance(a, tuple) and isinstance(b, tuple) and len(a) == 4:
+            return a[2:] == b[2:] and a[0].shape == b[0].shape and np.allclose(a[0], b[0], rtol=1e-12) and np.allclose(a[1], b[1], rtol=1e-9, atol=0)
+        if a is None or b is None:
+            return a is b
+        return np.shape(a) == np.shape(b) and np.allclose(np.asarray(a, float), np.asarray(b, float), rtol=1e-9, atol=0)
+    for name, fn in ops.items():
+        bb, tw = pair()
+        try:
+            rb, rt = fn(bb), fn(tw)
+        except Exception as e:
+            acc.violation(f'blackbody:{name}:raises:{type(e).__name__}', dict(case, op=name), repr(e))
+            continue
+        rb2, rt2 = (state(rb), state(rt)) if hasattr(rb, 'wave') or hasattr(rt, 'wave') else (rb, rt)
+        if not same(rb2, rt2):
+            acc.violation(f'blackbody:{name}:result', dict(case, op=name), f'{name} of a Blackbody gives {rb2 if not isinstance(rb2, tuple) else rb2[1][:4]}, of the plain Spectrum with the same samples {rt2 if not isinstance(rt2, tuple) else rt2[1][:4]}')
+        if not same(state(bb), state(tw)):
+            acc.violation(f'blackbody:{name}:state', dict(case, op=name), f'after {name} the Blackbody holds other samples than the plain Spectrum')
+        acc.transitions += 1
+    # binning re-evaluates the Planck law at the bin edges: the bins asked for in another wavelength unit are those of the same
+    # source built in that unit to begin with (per-unit densities scale with the unit), and preserve_power keeps their sum
+    if case['kind2'] == 'planck':
+        c_nm = np.array([450., 500., 550., 600.])
+        for rule in ('trapz', 'simps'):
+            for pp in (True, False):
+                try:
+                    a = np.asarray(rad.Blackbody(grid.copy(), 5000., waveunit=wu, valueunit=vu).bin(c_nm * fo, interp_method=rule, preserve_power=pp, waveunit=other), float)
+                    b = np.asarray(rad.Blackbody(grid / f * fo, 5000., waveunit=other, valueunit=vu).bin(c_nm * fo, interp_method=rule, preserve_power=pp, waveunit=other), float)
+                except Exception as e:
+                    acc.violation(f'blackbody:bin:raises:{type(e).__name__}', dict(case, rule=rule, preserve=pp), repr(e))
+                    continue
+                if a.shape != b.shape or not np.all(np.isfinite(a)) or not np.allclose(a, b, rtol=1e-9, atol=0) or not np.all(a > 0):
+                    acc.violation('blackbody:bin:other-unit', dict(case, rule=rule, preserve=pp), f'a {wu} Blackbody binned in {other}: {a}; the same source built in {other}: {b}')
+    acc.cls('blackbody-twin')
+    acc.case(case, outcome='bb-twin')
+
+
 def chk_bin_errors(case, acc, seed):
     s = spec(GRIDS['u7'], [1] * 7)
     for bad, kw in (([500], {}), ([450, 550], {'ends': 'bogus'}), ([450, 550], {'interp_method': 'bogus'})):
@@ -242,7 +309,7 @@ EVENTS = [
     ('pad', (300, 800), 'min', 'constant', None), ('pad', (350, 700), 'min', 'edge', None), ('pad', (390, 710), 20, 'constant', (1, 2)),
     ('pad', (-5, 800), 'min', 'constant', None),
     ('append', 'legal'), ('append', 'overlap'), ('append', 'longer'), ('append', 'notspectrum'), ('append', 'interleaved'), ('append', 'legal-copy'),
-    ('resample', 'inside'), ('resample', 'nodes'), ('resample', 'decreasing'), ('resample', 'duplicate'), ('resample', 'nonpositive'), ('resample', 'zero'),
+    ('resample', 'inside'), ('resample', 'nodes'), ('resample', 'decreasing'), ('resample', 'duplicate'), ('resample', 'nonpositive'), ('resample', 'zero'), ('resample', 'decreasing-uint'), ('resample', 'duplicate-uint'),
     ('resample', 'wider'),
 ]
 
@@ -284,6 +351,8 @@ def apply_event(s, ev):
                     'duplicate': np.array([lo, lo, hi]),
                     'nonpositive': np.array([-1.0, lo, hi]),
                     'zero': np.array([0.0, lo, hi]),
+                    'decreasing-uint': np.array([lo + 0.5 * (hi - lo), lo + 0.25 * (hi - lo), hi]).astype(np.uint16),
+                    'duplicate-uint': np.array([lo, lo, hi]).astype(np.uint32),
                     'wider': np.linspace(lo * 0.9, hi * 1.1, 5)}[ev[1]]
             s.resample(grid)
         return None, None
@@ -434,7 +503,7 @@ def step_check(s, ev, sub, acc):
                 acc.violation(f'resize:append:{ev[1]}:accepted', sub, f'illegal append ({ev[1]}) was accepted: {w0.tolist()} -> {w1.tolist()}')
                 return False
     elif kind == 'resample':
-        if ev[1] in ('decreasing', 'duplicate', 'nonpositive', 'zero'):
+        if ev[1] in ('decreasing', 'duplicate', 'nonpositive', 'zero', 'decreasing-uint', 'duplicate-uint'):
             acc.violation(f'resize:resample:{ev[1]}:accepted', sub, 'invalid wavelength grid accepted')
             return False
     return True
@@ -472,7 +541,7 @@ def t_bfs(arg, acc):
     acc.cls('resize-states', len(seen))
 
 
-DISPATCH = {'crop': chk_crop, 'integrate': chk_integrate, 'bin': chk_bin, 'binerr': chk_bin_errors, 'hist': lambda c, a, s: chk_hist(c, a, s)}
+DISPATCH = {'bbtwin': chk_blackbody_twin, 'crop': chk_crop, 'integrate': chk_integrate, 'bin': chk_bin, 'binerr': chk_bin_errors, 'hist': lambda c, a, s: chk_hist(c, a, s)}
 
 
 DISPATCH['histop'] = histories.chk_case
@@ -484,6 +553,10 @@ def t_static(arg, acc):
             acc.states += 1
             chk_integrate({'kind': 'integrate', 'grid': gname}, acc, seed)
         chk_bin_errors({'kind': 'binerr'}, acc, seed)
+        for wu in ('nm', 'um'):
+            for vu in ('photlam', 'wlam'):
+                chk_blackbody_twin({'kind': 'bbtwin', 'wu': wu, 'vu': vu, 'kind2': 'planck'}, acc, seed)
+            chk_blackbody_twin({'kind': 'bbtwin', 'wu': wu, 'vu': 'photlam', 'kind2': 'vegamag'}, acc, seed)
     else:
         for cname in CENTRES:
             for ends in ('symmetric', 'inside'):
@@ -519,7 +592,7 @@ def run(tier, seed, acc, procs=None):
         'bounds': {'resize_depth': depth, 'events': len(EVENTS), 'starts': list(STARTS)},
         'assumptions': ["Simpson's rule is only judged for uniformly spaced centres / odd sample counts, as the statement says",
                         'exact piecewise-linear integrals in Fractions'],
-        'require': {'integrate': 50, 'bin:trapz:nm': 20, 'bin:simps:um': 20, 'crop-units': 8, 'bin:foreign-unit': 40, 'bin:integer-centres': 30},
+        'require': {'integrate': 50, 'bin:trapz:nm': 20, 'bin:simps:um': 20, 'crop-units': 8, 'bin:foreign-unit': 40, 'bin:integer-centres': 30, 'blackbody-twin': 6},
         'expect': {'refused-events': 50, 'resize-states': 50},
     }
 
